@@ -36,7 +36,7 @@ H = Harness("C02", ["OQ.Gates.CR", "OQ.Gen.GatesGen", "OQ.Gates.BuiltinCases"],
             "per gate: table-entry cases (generated table vs running object), computability cases (float/int/Rational/"
             "Symbol parameters), entry cases (generated definition vs sympy's evaluated matrix at rational parameter "
             "points, certified by interval to 1e-12), law cases (numpy oracle: unitarity, flag, group law, fixed relations "
-            "at random parameters); non-trivial = parametric gate or 2-qubit gate",
+            "at random parameters), fresh cases (the caller edits the matrix object it was handed; asking again must give the same matrix); non-trivial = parametric gate or 2-qubit gate",
             preamble="Require Import Coq.Reals.Reals Coq.Lists.List.\nImport ListNotations.\nFrom Interval Require Import Tactic.\nOpen Scope R_scope.\n")
 
 def gen(rng, tier):
@@ -53,6 +53,10 @@ def gen(rng, tier):
         for _ in range(nlaw if k else 1):
             yield dict(kind="laws", gate=name, ps=[rng.uniform(-7, 7) for _ in range(k)], qs=[rng.uniform(-7, 7) for _ in range(k)])
     yield dict(kind="relations")
+    # history stream (last, so that a shared-object defect cannot disturb the cases above): the caller edits the
+    # matrix it was handed, then asks again; the second answer must still be the gate's matrix
+    for name in GATES:
+        yield dict(kind="fresh", gate=name, ps=[rng.uniform(-7, 7) for _ in range(nparams(name))])
 
 def rlit(x):
     fr = Fraction(repr(float(x))) if not isinstance(x, Fraction) else x
@@ -112,6 +116,22 @@ def run_case(inp):
             if np.abs(npmat(gate(name, [0.0]).matrix) - np.eye(d)).max() > 1e-9: msgs.append("G(0) != I")
         if name == "Delay" and not msgs and np.abs(M - np.eye(2)).max() > 1e-12: msgs.append("Delay is not the identity")
         return dict(chk=None, kind=kind, nontrivial=bool(ps), oracle_ok=not msgs, oracle_msg=f"{name}{tuple(ps)}: " + "; ".join(msgs))
+    if kind == "fresh":
+        ps = inp["ps"]
+        st, M0 = outcome(lambda: gate(name, ps).matrix, timeout=60)
+        if st != "ok":
+            return dict(chk=None, kind=kind, oracle_ok=False, oracle_msg=f"{name}{tuple(ps)}.matrix raised {M0}")
+        before = npmat(M0)
+        try:
+            M0[0, 0] = M0[0, 0] + 3
+            M0[M0.shape[0] - 1, 0] = 5
+            edited = True
+        except TypeError:
+            edited = False      # immutable result: nothing a caller could spoil
+        after = npmat(gate(name, ps).matrix)
+        ok = after.shape == before.shape and np.abs(after - before).max() < 1e-12
+        return dict(chk=None, kind=kind, nontrivial=edited, oracle_ok=ok,
+                    oracle_msg=f"{name}{tuple(ps)}.matrix differs (not unitary any more) after the caller edited the matrix object it had been handed earlier")
     if kind == "relations":
         m = lambda n: npmat(getattr(bg, n).matrix)
         msgs = []
